@@ -439,8 +439,22 @@ def run_tsan_monitor(tier):
     env = dict(os.environ)
     env["TSAN_OPTIONS"] = "halt_on_error=0 exitcode=66 report_signal_unsafe=0"
     t0 = time.time()
-    p = subprocess.run([exe, str(runs)], env=env, stdout=subprocess.PIPE, stderr=subprocess.PIPE, timeout=1200)
-    err = p.stderr.decode(errors="replace")
+    limit = 90 if tier == "quick" else 600
+    p = subprocess.Popen([exe, str(runs)], env=env, stdout=subprocess.PIPE, stderr=subprocess.PIPE, start_new_session=True)
+    try:
+        out_b, err_b = p.communicate(timeout=limit)
+    except subprocess.TimeoutExpired:
+        try:
+            os.killpg(p.pid, 9)
+        except OSError:
+            pass
+        out_b, err_b = p.communicate()
+        err = err_b.decode(errors="replace")
+        info = {"runs": runs, "tsan_reports": err.count("WARNING: ThreadSanitizer"), "exit": "timeout", "wall_s": round(time.time() - t0, 2)}
+        return info, [{"clause": "free-run-hang", "key": "h_c20_tsan|clause=free-run-hang",
+                       "msg": "the free-running threads did not finish %d life cycles within %d s (deadlock or lost end-of-file); TSan output so far: %s" % (runs, limit, err[:500].replace("\n", " | "))}]
+    p.stdout_text = out_b.decode(errors="replace")
+    err = err_b.decode(errors="replace")
     reports = err.count("WARNING: ThreadSanitizer")
     info = {"runs": runs, "tsan_reports": reports, "exit": p.returncode, "wall_s": round(time.time() - t0, 2)}
     viols = []
@@ -450,7 +464,7 @@ def run_tsan_monitor(tier):
         viols.append({"clause": "tsan-" + kind, "key": "h_c20_tsan|clause=tsan-%s" % kind, "msg": "ThreadSanitizer reported %d problem(s) in %d free runs: %s" % (reports, runs, first)})
     elif p.returncode != 0:
         viols.append({"clause": "free-run-functional", "key": "h_c20_tsan|clause=free-run-functional",
-                      "msg": "free-running threads: wrong bytes or status (%s %s)" % (p.stdout.decode(errors="replace").strip(), err[-300:].replace("\n", " | "))})
+                      "msg": "free-running threads: wrong bytes or status (%s %s)" % (p.stdout_text.strip(), err[-300:].replace("\n", " | "))})
     return info, viols
 
 
